@@ -156,3 +156,29 @@ def run(index: RepoIndex, rep) -> None:
               'only the status')
     box_rule(index, rep, 'C10.R4', ev)
     door_flags(index, rep, 'C10.R5', ev.om)
+    # R6: the other transition functions never overwrite a door or a box
+    rep.rule('C10.R6', 'no cell store of pickndrop can land on a Door or a Box (only actuation '
+             'affects them)', floor=1)
+    from ..dynmodel import FRONT, cell, describe_world
+    pk = index.func(TRANS, 'pickndrop')
+    mp = FnModel(index, pk, ['S', 'A'], ev)
+    cst = [e for e in mp.effects if effect_class(e) == 'cell']
+    if not cst:
+        rep.holds('C10.R6', f'{TRANS}:pickndrop', 'pickndrop stores no cell')
+    for e in cst:
+        bad = None
+        tgt_cell = e.target
+        for w_ in mp.worlds([e.guard]):
+            try:
+                if not ev.holds(e.guard, w_):
+                    continue
+            except Exception:      # noqa: BLE001 - out-of-grid worlds are C01's business
+                continue
+            k = w_.vals.get(('kind', tgt_cell))
+            if k is not None and k.cls in ('Door', 'Box'):
+                bad = (w_, k)
+                break
+        rep.check(bad is None, 'C10.R6', TRANS, 'pickndrop', e.line, src(e.ev.stmt),
+                  f'pickndrop can overwrite the cell `{tgt_cell}` while it holds a '
+                  f'{bad[1] if bad else ""} ({describe_world(bad[0]) if bad else ""}): a door or '
+                  f'box is affected by an action other than ACTUATE', 'doors and boxes untouched')
